@@ -3,7 +3,8 @@
 //   fed     = compressed bytes consumed so far for the current stream
 //   emitted = decompressed bytes delivered so far for the current stream
 //   pending = the decoder holds decompressed bytes it could not deliver yet (output buffer was full)
-pub struct VBrotliState { pub fed: Ghost<nat>, pub emitted: Ghost<nat>, pub pending: Ghost<bool> }
+//   last / last_room = verdict of the most recent call on this decoder, and the output room that call was given
+pub struct VBrotliState { pub fed: Ghost<nat>, pub emitted: Ghost<nat>, pub pending: Ghost<bool>, pub last: Ghost<Option<VBrotliResult>>, pub last_room: Ghost<nat> }
 
 pub enum VBrotliResult { ResultSuccess, NeedsMoreInput, NeedsMoreOutput, ResultFailure }
 
@@ -31,6 +32,7 @@ pub fn VBrotliDecompressStream(
         *final(available_out) <= *old(available_out),
         final(s).fed@ == old(s).fed@ + (*final(input_offset) - *old(input_offset)),
         final(s).emitted@ == old(s).emitted@ + (*final(output_offset) - *old(output_offset)),
+        final(s).last@ == Some(r) && final(s).last_room@ == *old(available_out),
         // the decoder asks for input only when it has consumed all of it and holds nothing back
         r is NeedsMoreInput ==> *final(available_in) == 0 && !final(s).pending@,
         // it asks for output room only when the room given is used up
